@@ -54,6 +54,9 @@ T = {
     "C15": ("history monitor: recorded API histories (call event before, outcome after) compared with a fresh-object replay model built from the final state; aliasing monitor: checksums of every caller array across the history, mutation of every handed-out array followed by re-query",
             "Held on the executions produced: ALL histories of length <= 2 (quick) / <= 3 (thorough) over a 14-operation alphabet from three initial states (no NAC, Wang, Gonze-Lee) plus random histories of length 4..8; 12 aliasing probes per cell/initial state. Three documented/deliberate reference-semantics behaviours are listed as known findings.",
             "reference = the real class freshly constructed; operations that raise are recorded as outcomes", "3/C15"),
+    "C16": ("file-boundary round-trip monitor: save()/load() and every file_IO writer/parser pair, oracle = the in-memory object that was written, tolerance = printed precision measured from the written text; repeated in a working directory seeded with decoy files; documented priority list of load() checked pairwise with distinguishable sources",
+            "Held on the executions produced: 12 crystals (extended symbols, collinear/non-collinear moments, custom masses) x 17 calculator settings x dataset type 1/2/none x FC full/compact/none x NAC x xz x all 2^5 settings dictionaries; FORCE_SETS/FORCE_CONSTANTS/hdf5/BORN with values from 1e-8 to 1e8; 21 source pairs of the load() priority list.",
+            "type-2 datasets are round-tripped but not turned into force constants (symfc/ALM absent)", "3/C16"),
 }
 
 NA_REASON = "check not built yet in this round (runtime-monitoring driver pending); no claim is made"
